@@ -76,6 +76,31 @@ def check(rep, an, tier):
         if not mt:
             rep.holds("R-VALUE", "the in-gamut gate is not wider than what the enumeration accepts", where=res.fn.loc(), construct="membership tests of range_of_solutions",
                       entry=entry, config=res.config)
+        # a square sub-system of the enumeration may be singular (proportional sources, a source that alone drives a channel): such a
+        # choice of sources is no basis of the feasible polytope and is skipped — it must not abort the call for an in-gamut target
+        import ast as _ast
+        for ev in res.events("ext_call"):
+            if ev.d["dotted"] not in ("numpy.linalg.solve", "scipy.linalg.solve", "numpy.linalg.inv") or not ev.loops:
+                continue
+            # which kind of loop encloses the solve: an enumeration of source subsets (itertools.combinations) or a walk along a range?
+            lq, lno = ev.loops[-1]
+            loop = next((n for n in _ast.walk(ev.fn.node) if isinstance(n, _ast.For) and n.lineno == lno), None)
+            it = norm_text(loop.iter) if loop is not None else ""
+            if "combinations(" in it:
+                hs = [x for h in ev.handlers for x in (h if isinstance(h, (tuple, list)) else (h,))]
+                caught = any(("LinAlgError" in x) or x.split(".")[-1] in ("Exception", "BaseException") for x in hs)
+                rep.check("R-DISPATCH", "a singular sub-system of the enumeration is skipped, not raised", caught, where=ev.loc,
+                          construct=ev.text()[:80], entry=entry, config=res.config,
+                          msg="np.linalg.solve of an enumerated square sub-system is not guarded: for systems with proportional sources (or a "
+                              "source that alone drives a channel) some sub-system is singular and an in-gamut target raises LinAlgError")
+            elif cfg["n"] is not None and ev.d["args"]:
+                # spaced solutions along the solution segment: the source that parametrises the segment must be one that VARIES on it (chosen
+                # from the computed ranges) — with a fixed choice the remaining sub-system is singular whenever the target pins that source
+                md = {o.split("|")[0] for o in (ev.d["args"][0].flat().data | ev.d["args"][0].flat().shp)}
+                rep.check("R-DISPATCH", "spaced solutions are parametrised by a source that varies on the solution segment", "B" in md, where=ev.loc,
+                          construct=ev.text()[:80], entry=entry, config=res.config,
+                          msg="the square sub-system solved for the spaced solutions leaves out a FIXED source (its choice does not depend on the "
+                              "solution ranges): when the target pins that source the sub-system is singular and the call raises LinAlgError")
         # error dispatch
         # the out-of-gamut error: a raise in the entry (or its private helpers) that is guarded by the membership result — identified
         # by what it depends on, not by its message
